@@ -332,7 +332,7 @@ func (d *Discharger) solveOne(o *Obligation) {
 		}
 		// staged: fewer assumptions first (a refutation from a subset of the assumptions is
 		// a refutation), the full set last; only the full query can give a model
-		if !o.IsCanary && !d.All {
+		if !o.IsCanary {
 			if o.smtQF != "" {
 				t := d.Timeout
 				if t > 5 {
@@ -349,7 +349,7 @@ func (d *Discharger) solveOne(o *Obligation) {
 				}
 			}
 			if o.smtLemmas != "" {
-				r := Solve(d.Dir, fname+".lemmas", o.smtLemmas, d.Timeout, false)
+				r := Solve(d.Dir, fname+".lemmas", o.smtLemmas, d.Timeout, d.All)
 				if r.Answer == "unsat" {
 					r.Solver += " (by the named assertions)"
 					o.Res = r
@@ -361,7 +361,7 @@ func (d *Discharger) solveOne(o *Obligation) {
 				if tn > 4 {
 					tn = 4 // a shortcut, not the last word: the full query follows
 				}
-				r := Solve(d.Dir, fname+".near", o.smtNear, tn, false)
+				r := Solve(d.Dir, fname+".near", o.smtNear, tn, d.All)
 				if r.Answer == "unsat" {
 					r.Solver += " (nearby quantified facts)"
 					o.Res = r
@@ -391,7 +391,7 @@ func (d *Discharger) feed(obls []*Obligation, ch chan *Obligation) {
 				}
 			}()
 			o.smtText = o.SMT()
-			if !o.IsCanary && !d.All {
+			if !o.IsCanary {
 				o.relaxed = true
 				o.smtQF = o.SMT()
 				o.relaxed = false
